@@ -33,21 +33,22 @@ theorem unq_no_backslash : ∀ s : List Nat, s.contains 92 = false → unq s non
     have hc : ¬ c = 92 := fun e => h.1 e.symm
     simp [unq, hc, unq_no_backslash rest h.2]
 
-theorem strEq_no_backslash (s1 s2 : List Nat) (q1 q2 : Quotes)
-    (h1 : s1.contains 92 = false) (h2 : s2.contains 92 = false) : strEq s1 q1 s2 q2 = (s1 == s2) := by
+theorem strEq_no_backslash (r : Bool) (s1 s2 : List Nat) (q1 q2 : Quotes)
+    (h1 : s1.contains 92 = false) (h2 : s2.contains 92 = false) : strEq r s1 q1 s2 q2 = (s1 == s2) := by
   have e1 : unquote s1 q1 = s1 := by unfold unquote; split <;> simp [unq_no_backslash s1 h1]
   have e2 : unquote s2 q2 = s2 := by unfold unquote; split <;> simp [unq_no_backslash s2 h2]
   unfold strEq
-  split
-  · rfl
-  · rw [e1, e2]
+  rw [e1, e2]
+  cases r
+  · by_cases hq : q1 = q2 <;> simp [hq]
+  · by_cases hq : q1 = q2 <;> simp [hq]
 
 theorem eq_simple (q : ValQuirks) (env : Env ν) (a b : V ν) (ha : a.simpleKey = true) (hb : b.simpleKey = true) :
     V.eq q env a b = decide (a.canon = b.canon) := by
   cases a <;> cases b <;> simp only [V.simpleKey, Bool.false_eq_true, Bool.not_eq_true'] at ha hb <;>
     simp [V.eq, V.canon]
   · rename_i s1 q1 s2 q2
-    rw [strEq_no_backslash s1 s2 q1 q2 ha hb]
+    rw [strEq_no_backslash _ s1 s2 q1 q2 ha hb]
     by_cases h : s1 = s2 <;> simp [h]
   · rename_i i j
     by_cases h : i = j <;> simp [h]
